@@ -1,4 +1,4 @@
-import Lemmas.EnginePreview
+import Lemmas.EngineErase
 /-! C14 — a dry run changes nothing.
 The preview clauses of the component machines of model B.  `World.step` is the product of the components exactly as
 trace validation runs them (`Driver/Engine.lean`): `Chain`, `Ack dry`, `Events dry isTx`, the three `Guard`
@@ -159,11 +159,11 @@ theorem later_history_unaffected_events (dry isTx : Nat → Bool) (es : List Ev)
       | some a => simp only [hr] at hp; exact (events_inert dry isTx s s1 e a hr hp hs).2.2
 
 /-- **as if the previews had never been made** (log, queue, `lastLog`, `lastTXID`): take any history `Ack` accepts —
-previews and real writes interleaved in any way, crashes, store failures — and remove every event of a preview: `Chain`
-goes through exactly the same states' end, accepted or rejected alike -/
-theorem history_without_previews (dry : Nat → Bool) (es : List Ev) (sA sA' : Ack.S) (s : Chain.S)
+previews and real writes interleaved in any way, crashes, store failures — and remove every event of a preview:
+`Chain` ends exactly where it ended with them (and rejects where it rejected) -/
+theorem history_without_previews_chain (dry : Nat → Bool) (es : List Ev) (sA sA' : Ack.S) (s : Chain.S)
     (hA : runOn (Ack.step dry) sA es = .ok sA') :
-    runOn Chain.step s (es.filter (fun e => !previewEv dry e)) = runOn Chain.step s es := by
+    runOn Chain.step s (withoutPreviews dry es) = runOn Chain.step s es := by
   apply chain_erase
   intro e he hk
   have hp : previewEv dry e = true := by simpa using hk
@@ -172,6 +172,22 @@ theorem history_without_previews (dry : Nat → Bool) (es : List Ev) (sA sA' : A
   cases hr : reqOf e with
   | none => simp [hr] at hp
   | some a => rfl
+
+/-- **as if the previews had never been made** (who committed what, what is persisted, who was answered what): the
+history without the preview events is accepted by `Ack` too — every check on a real request is decided alike — and
+ends with the same store, queue, producers, answers and losses -/
+theorem history_without_previews_ack (dry : Nat → Bool) (funding : List LogE) (es : List Ev) (s' : Ack.S)
+    (h : runOn (Ack.step dry) (Ack.init funding) es = .ok s') :
+    ∃ s'', runOn (Ack.step dry) (Ack.init funding) (withoutPreviews dry es) = .ok s'' ∧ ackCore s'' = ackCore s' :=
+  ⟨ackScrub dry s', by simpa [ackScrub_init] using ack_erase dry es _ s' h, rfl⟩
+
+/-- **as if the previews had never been made** (the bus): the history without the preview events is accepted by
+`Events` too and ends with the same store, queue, published events, `lastTx` and answers -/
+theorem history_without_previews_events (dry isTx : Nat → Bool) (funding : List LogE) (es : List Ev) (s' : Events.S)
+    (h : runOn (Events.step dry isTx) (Events.init funding) es = .ok s') :
+    ∃ s'', runOn (Events.step dry isTx) (Events.init funding) (withoutPreviews dry es) = .ok s'' ∧
+      eventsCore s'' = eventsCore s' :=
+  ⟨eventsScrub dry s', by simpa [eventsScrub_init] using events_erase dry isTx es _ s' h, rfl⟩
 
 /-! non-vacuity.  Request 1 is a real create, request 3 a preview of a create that reserves an idempotency key, looks
 it up, locks, reads a balance, reaches its commit point, answers the next id and releases everything. -/
@@ -194,5 +210,15 @@ example : (runOn (World.step cfg) w0 (preview ++ [.committed 1 l1 1, .gate 1 tru
 example : (runOn (World.step cfg) w0 [.arrive 3 "wait", .finish 3 true "" (some 2)]).toOption.isNone = true := by decide
 example : (runOn (World.step cfg) w0 [.committed 3 l1 1]).toOption.isNone = true := by decide
 example : (runOn (World.step cfg) w0 [.publish 3 (.committed 0 [])]).toOption.isNone = true := by decide
+
+/-- a preview interleaved with a real write; without its events the same log, the same answer -/
+def mixed : List Ev :=
+  [.arrive 3 "wait", .committed 1 l1 1, .ikRead 3 "k" none, .gate 1 true, .finish 3 true "" (some 1), .arrive 1 "done",
+   .finish 1 true "" (some 1)]
+example : withoutPreviews cfg.dry mixed = [.committed 1 l1 1, .gate 1 true, .arrive 1 "done", .finish 1 true "" (some 1)] := by
+  rfl
+example : (runOn (Ack.step cfg.dry) (Ack.init [l0]) mixed).toOption.map (fun s => s.acks.map (·.a)) = some [1] ∧
+    (runOn (Ack.step cfg.dry) (Ack.init [l0]) (withoutPreviews cfg.dry mixed)).toOption.map (fun s => s.acks.map (·.a)) = some [1] := by
+  decide
 
 end C14
